@@ -281,10 +281,15 @@ def plan(ctx):
             jobs.append((("chain", a, "native", "await", 2, 2), 1 if not heavy else 0))
         for a in SINGLE:
             for b in SINGLE:
+                if b.endswith(":parity") and a.startswith(("timed_window", "partition")):
+                    continue        # the harness key function (x % 2) is not defined on the batches of the first node
                 jobs.append((("chain", a + "," + b, "native", "await", 3, 1), 0))
         for a in SINGLE:
             heavy = a.startswith(("timed_window", "partition", "delay", "rate_limit"))
-            jobs.append((("twin", a, "sync", "burst", 3), 1 if not heavy else 0))
+            masync = a.startswith("map_async")
+            jobs.append((("twin", a, "sync", "burst", 3), 1 if not (heavy or masync) else 0))
+            if masync:
+                jobs.append((("twin", a, "sync", "burst", 2), 1))
             if not heavy:
                 jobs.append((("twin", a, "future", "burst", 2), 0))
         for kind in KINDS:
